@@ -13,7 +13,7 @@ vars == <<mode, ty, hist>>
 LVars == {"a", "b", "c"}
 IdxKinds == {"m1", "zero", "last", "len"}
 ListOps ==
-    [op : {"push", "reverse", "clear", "map", "filter", "len", "indexof_hit", "indexof_miss", "concat"}, x : LVars]
+    [op : {"push", "reverse", "clear", "map", "filter", "len", "indexof_hit", "indexof_miss", "concat", "inner"}, x : LVars]
     \cup [op : {"remove", "read", "set", "opset"}, x : LVars, i : IdxKinds]
     \cup [op : {"join", "eq"}, x : LVars, y : LVars]
     \cup [op : {"alias", "clone"}, y : {"a", "b"}]          \* c = y   /   c = y.clone()
@@ -28,23 +28,29 @@ MapOps ==
 
 Ops == IF mode = "list" THEN ListOps ELSE MapOps
 
-Init == mode \in Modes /\ ty \in (IF mode = "list" THEN {"int", "str", "opt"} ELSE {"int", "opt"}) /\ hist = <<>>
+Init == mode \in Modes /\ ty \in (IF mode = "list" THEN {"int", "str", "opt", "nest"} ELSE {"int", "opt"}) /\ hist = <<>>
 Next == /\ Len(hist) < MaxLen
         /\ \E o \in Ops : hist' = Append(hist, o)
         /\ UNCHANGED <<mode, ty>>
 
 -----------------------------------------------------------------------------
-ElemTy == CASE ty = "int" -> "int" [] ty = "str" -> "str" [] ty = "opt" -> "int?"
+ElemTy == CASE ty = "int" -> "int" [] ty = "str" -> "str" [] ty = "opt" -> "int?" [] ty = "nest" -> "[int...]"
 LTy == "[" \o ElemTy \o "...]"
 Val(n) == CASE ty = "int" -> I(n)
             [] ty = "str" -> S("s" \o ToString(n))
             [] ty = "opt" -> IF n % 2 = 0 THEN I(n) ELSE Nil
+            [] ty = "nest" -> List(<<I(n)>>)          \* inside a typed list literal
+(* a value in argument position: nested lists go through a typed temporary (a bare `[n]` is a fixed-shape list) *)
+Pre(n) == IF ty = "nest" THEN <<LetT("t" \o ToString(n), "[int...]", List(<<I(n)>>))>> ELSE <<>>
+Arg(n) == IF ty = "nest" THEN V("t" \o ToString(n)) ELSE Val(n)
 MapFn == CASE ty = "int" -> Fn("dbl", <<P("q", "int")>>, "int", <<Ret(Bin("*", V("q"), I(2)))>>)
            [] ty = "str" -> Fn("dbl", <<P("q", "str")>>, "str", <<Ret(Bin("+", V("q"), S("!")))>>)
            [] ty = "opt" -> Fn("dbl", <<P("q", "int?")>>, "int", <<Ret(Or(V("q"), I(0)))>>)
+           [] ty = "nest" -> Fn("dbl", <<P("q", "[int...]")>>, "int", <<Ret(MCall(V("q"), "len", <<>>))>>)
 FilterFn == CASE ty = "int" -> Fn("big", <<P("q", "int")>>, "bool", <<Ret(Bin(">", V("q"), I(2)))>>)
               [] ty = "str" -> Fn("big", <<P("q", "str")>>, "bool", <<Ret(Bin("!=", V("q"), S("s2")))>>)
               [] ty = "opt" -> Fn("big", <<P("q", "int?")>>, "bool", <<Ret(Bin("!=", V("q"), Nil))>>)
+              [] ty = "nest" -> Fn("big", <<P("q", "[int...]")>>, "bool", <<Ret(Bin(">", MCall(V("q"), "len", <<>>), I(1)))>>)
 
 IdxExpr(x, i) == CASE i = "m1" -> I(-1) [] i = "zero" -> I(0)
                    [] i = "last" -> Bin("-", MCall(V(x), "len", <<>>), I(1))
@@ -53,20 +59,23 @@ IdxExpr(x, i) == CASE i = "m1" -> I(-1) [] i = "zero" -> I(0)
 ObserveL == <<Print(V("a")), Print(V("b")), Print(V("c"))>>
 
 ListStmts(o, n) ==
-    CASE o.op = "push" -> <<ExprS(MCall(V(o.x), "push", <<Val(10 + n)>>))>>
+    CASE o.op = "push" -> Pre(10 + n) \o <<ExprS(MCall(V(o.x), "push", <<Arg(10 + n)>>))>>
+      \* reach into the first element: for nested lists this mutates a list that the other variables may share
+      [] o.op = "inner" -> IF ty = "nest" THEN <<Let("k", I(0)), Let("inr", Idx(V(o.x), V("k"))), ExprS(MCall(V("inr"), "push", <<I(70 + n)>>))>>
+                           ELSE <<Let("k", I(0)), Let("inr", Idx(V(o.x), V("k"))), Print(V("inr"))>>
       [] o.op = "reverse" -> <<ExprS(MCall(V(o.x), "reverse", <<>>))>>
       [] o.op = "clear" -> <<ExprS(MCall(V(o.x), "clear", <<>>))>>
       [] o.op = "map" -> <<Print(MCall(V(o.x), "map", <<MapFn>>))>>
       [] o.op = "filter" -> <<Print(MCall(V(o.x), "filter", <<FilterFn>>))>>
       [] o.op = "len" -> <<Print(MCall(V(o.x), "len", <<>>))>>
-      [] o.op = "indexof_hit" -> <<Print(MCall(V(o.x), "index_of", <<Val(2)>>))>>
-      [] o.op = "indexof_miss" -> <<Print(MCall(V(o.x), "index_of", <<Val(98)>>))>>
+      [] o.op = "indexof_hit" -> Pre(2) \o <<Print(MCall(V(o.x), "index_of", <<Arg(2)>>))>>
+      [] o.op = "indexof_miss" -> Pre(98) \o <<Print(MCall(V(o.x), "index_of", <<Arg(98)>>))>>
       [] o.op = "concat" -> <<Print(Bin("+", Bin("+", S("n="), MCall(V(o.x), "len", <<>>)), S(";")))>>
       [] o.op = "remove" -> <<Let("k", IdxExpr(o.x, o.i)), Print(MCall(V(o.x), "remove", <<V("k")>>))>>
       [] o.op = "read" -> <<Let("k", IdxExpr(o.x, o.i)), Print(Idx(V(o.x), V("k")))>>
-      [] o.op = "set" -> <<Let("k", IdxExpr(o.x, o.i)), Assign(Idx(V(o.x), V("k")), "=", Val(20 + 2 * n))>>
-      [] o.op = "opset" -> <<Let("k", IdxExpr(o.x, o.i)),
-                             IF ty = "opt" THEN Assign(Idx(V(o.x), V("k")), "=", Val(21 + 2 * n))
+      [] o.op = "set" -> Pre(20 + 2 * n) \o <<Let("k", IdxExpr(o.x, o.i)), Assign(Idx(V(o.x), V("k")), "=", Arg(20 + 2 * n))>>
+      [] o.op = "opset" -> Pre(21 + 2 * n) \o <<Let("k", IdxExpr(o.x, o.i)),
+                             IF ty \in {"opt", "nest"} THEN Assign(Idx(V(o.x), V("k")), "=", Arg(21 + 2 * n))
                              ELSE Assign(Idx(V(o.x), V("k")), "+", IF ty = "int" THEN I(5) ELSE S("z"))>>
       [] o.op = "join" -> <<Print(MCall(V(o.x), "join", <<V(o.y)>>))>>
       [] o.op = "eq" -> <<Print(Bin("==", V(o.x), V(o.y)))>>
